@@ -26,5 +26,13 @@ def run(ctx, rep):
     N.check_time_wiring(r5)
     r6 = rep.rule("S3", "dispatcher appends each line's datum to its own kind's list in file order (first match wins)", floor=1)
     check_dispatcher(ctx, r6)
+    r8 = rep.rule("recogniser", "every canonical note line (any digit count, blank padding) is accepted and decoded by the N "
+                                "recogniser: none is dropped as unparsable", floor=4)
+    from .decode import check_from_chart_line
+    from .lang import check_line_recogniser
+    NQ = "chartparse.instrument.NoteEvent.ParsedData"
+    info = check_from_chart_line(ctx, r8, NQ)
+    if info is not None:
+        check_line_recogniser(ctx, NQ, info, r8, r8, r8, only={"canon", "capture", "groups"})
     r7 = rep.rule("sections", "the track reads note data from the note kind's list of its own lines", floor=1)
     check_track_sections(ctx, r7, which="instrument")
